@@ -313,14 +313,18 @@ deriving Repr, DecidableEq
 
 /-- The task on which `op` calls `task.cancel()` (through `Timer.cancel`, tasks.py:90-97): the handle of the Timer
 of the registered request with that ticket (manager.py:111-114; tasks.py:103-107). -/
-def cancelTarget (s : State) : Op → Option Nat
-  | .remove tk | .timerCancel tk | .timerReschedule tk _ =>
-    match lookup s tk with
+def timerOf (s : State) (tk : Nat) : Option Nat :=
+  match lookup s tk with
+  | none => none
+  | some r =>
+    match r.timeout with
     | none => none
-    | some r =>
-      match r.timeout with
-      | none => none
-      | some _ => r.handle
+    | some _ => r.handle
+
+def cancelTarget (s : State) : Op → Option Nat
+  | .remove tk => timerOf s tk
+  | .timerCancel tk => timerOf s tk
+  | .timerReschedule tk _ => timerOf s tk
   | _ => none
 
 def hit (target : Option Nat) (e : Emission) : Emission :=
